@@ -79,7 +79,10 @@ def jitter(img, scale, pixelscale=1, oversample=1):
     kernel = np.exp(-2 * (np.pi * (scale / pixelscale) * oversample * rho) ** 2)
 
     out = np.abs(np.fft.ifft2(np.fft.fft2(img)*kernel))
-    return out * np.sum(img) / np.sum(out)  # rescale to preserve input weight
+    total = np.sum(out)
+    if total == 0:
+        return out  # nothing to rescale: a frame with no signal blurs to itself
+    return out * np.sum(img) / total  # rescale to preserve input weight
 
 
 def smear(img, distance, angle=None, pixelscale=1, oversample=1):
@@ -170,5 +173,8 @@ def smear(img, distance, angle=None, pixelscale=1, oversample=1):
     kernel = np.sinc(yy_rot * (distance / pixelscale) * oversample)
 
     out = np.abs(np.fft.ifft2(np.fft.fft2(img)*kernel))
-    return out * np.sum(img) / np.sum(out)  # rescale to preserve input weight
+    total = np.sum(out)
+    if total == 0:
+        return out  # nothing to rescale: a frame with no signal blurs to itself
+    return out * np.sum(img) / total  # rescale to preserve input weight
 
